@@ -81,6 +81,14 @@ def expressions(t):
     out += DESIGNED
     out += DICT_DYNAMIC
     out += NESTED
+    # dictionary literals with the same outer keys whose NESTED literals differ, one after the
+    # other in the same process (seed C10_f: a cache of generated record classes keyed by the
+    # outer shape served the inner fields of an earlier literal)
+    out += ["{'lead': {'pt': e.a}, 'n': e.b}['lead']['pt']", "{'lead': {'eta': e.a}, 'n': e.b}['lead']['eta']",
+            "{'lead': {'pt': e.a, 'eta': e.b}, 'n': e.b}['lead']['eta']",
+            "({'k': {'u': e.a}}['k']['u'], {'k': {'v': e.a}}['k']['v'])",
+            "{'k': {'u': {'w': e.a}}}['k']['u']['w']", "{'k': {'u': {'z': e.a}}}['k']['u']['z']",
+            "{'lead': {'pt': e.a}, 'n': e.b}.lead.pt", "{'lead': {'phi': e.a}, 'n': e.b}.lead.phi"]
     seen = set()
     res = []
     for s in out:
